@@ -80,7 +80,7 @@ fn the_primitive_fn<S: TheCompatible>(
                     if input.state().is_current_font_command(*tag) {
                         font_to_tokens(the_token, input, input.vm().current_font());
                     } else {
-                        todo!("should return an error")
+                        return cannot_use_after_the(the_token, token, input);
                     }
                 }
                 None
@@ -90,12 +90,29 @@ fn the_primitive_fn<S: TheCompatible>(
                     | command::Command::Execution(..)
                     | command::Command::CharacterTokenAlias(..),
                 ) => {
-                    todo!("should return an error")
+                    return cannot_use_after_the(the_token, token, input);
                 }
             }
         }
-        _ => todo!("should return an error"),
+        _ => {
+            return cannot_use_after_the(the_token, token, input);
+        }
     };
+    Ok(())
+}
+
+/// TeX.2021.428: the token after `\the` is not an internal quantity.
+/// After recovering from the error the value is zero, as in TeX.
+fn cannot_use_after_the<S: TheCompatible>(
+    the_token: token::Token,
+    token: token::Token,
+    input: &mut vm::ExpansionInput<S>,
+) -> txl::Result<()> {
+    input.error(error::SimpleTokenError::new(
+        token,
+        r"this token can't be used after \the",
+    ))?;
+    write(input.expansions_mut(), the_token, 0);
     Ok(())
 }
 
